@@ -222,10 +222,22 @@ class Impl:
         cls = _cls()
         tg = dotdict()
         self.attrs = []
+        # every third configuration is created the way a user does it: `NAME[@c/i/a]=TYPE[n]` on the simulator's command line,
+        # through main() itself (the listener stubbed out), then given its initial values by plain element assignment
+        self.via_main = (all(t['scalar'] == (t['n'] == 1) for t in tags) and hash_list([len(tags)] + [t['n'] for t in tags]) % 3 == 0
+                         and all(ch.isalnum() or ch == '_' for t in tags for ch in t['name'])
+                         and len({tuple(t['addr']) for t in tags if t.get('addr')}) == len([t for t in tags if t.get('addr')]))
+        made = self._main_tags(tags) if self.via_main else None
         for t in tags:
             init = [py_val(v) for v in t['init']]
             if t['ty'] in ('REAL', 'LREAL'):
                 init = [float(x) for x in init]
+            if made is not None:
+                ent = dict.__getitem__(made, t['name'])
+                att = ent.attribute
+                self.attrs.append(att)
+                dict.__setitem__(tg, t['name'], ent)
+                continue
             att = device.Attribute(t['name'], cls[t['ty']], default=(init[0] if t['scalar'] else init))
             self.attrs.append(att)
             ent = dotdict(attribute=att, error=0)
@@ -238,6 +250,44 @@ class Impl:
         logix.setup(tags=tg)
         self.mr = device.lookup(2, 1)
         self.wired = 0
+        if made is not None:
+            # main() creates zeroed tags: the initial values arrive the way a user's would, by Write Tag requests on the wire
+            for t in tags:
+                self.request(('write', ('sym', t['name'], None if t['scalar'] else 0), TY[t['ty']], t['n'], list(t['init'])))
+
+    def _main_tags(self, tags):
+        from cpppo.server.enip import main as M
+        from cpppo.server import network
+        got = {}
+        saved = network.server_main
+        def stub(**kw):
+            got.update(kw)
+            kw['kwargs']['server']['control']['done'] = True       # main() serves until told to stop
+            return 0
+        network.server_main = stub
+        lvl = logging.getLogger().level
+        try:
+            specs = []
+            for t in tags:
+                at = '@%d/%d/%d' % tuple(t['addr']) if t.get('addr') else ''
+                specs.append('%s%s=%s%s' % (t['name'], at, t['ty'], '' if t['scalar'] else '[%d]' % t['n']))
+            # main() keeps its tags, options and server control in module globals (one simulator per process): start from a clean slate
+            for g in (M.tags, M.options, M.srv_ctl):
+                for k in list(dict.keys(g)):
+                    dict.__delitem__(g, k)
+            try:
+                M.main(argv=['--no-udp', '-a', '127.0.0.1:0'] + specs)
+            except AssertionError as e:
+                import os
+                if os.environ.get('LOGIX_DEBUG'):
+                    print('main() refused', specs, e)
+                return None                  # main() refuses the configuration (eg. two tags naming one attribute with different shapes)
+        finally:
+            network.server_main = saved
+            logging.getLogger().setLevel(lvl)
+        if 'kwargs' not in got or 'tags' not in got['kwargs']:
+            raise core.HarnessError('main() did not hand its tags to the server')
+        return got['kwargs']['tags']
 
     def close(self):
         self.logix.Logix.MAX_BYTES = self.saved_max
@@ -351,6 +401,10 @@ def gen_tags(rng, types=None, maxlen=40):
             if (c, i, a) not in used:
                 addr = (c, i, a); used.add(addr)
         tags.append(dict(name=name, ty=ty, scalar=scalar, n=ln, addr=addr, init=init_vals(rng, ty, ln)))
+    if n >= 2 and rng.random() < 0.15:
+        # two tags whose names differ only in a way lower() keeps apart but looser foldings (casefold, NFKC) would merge
+        a, b = rng.choice([('Ma\xdf', 'Mass'), ('stra\xdfe', 'strasse'), ('\xdf', 'ss')])      # tag names are ISO-8859-1
+        tags[0]['name'], tags[1]['name'] = a + 'x', b + 'x'
     return tags
 
 
